@@ -481,4 +481,154 @@ theorem value_plain_of_facts (inFlow : Bool) (c : Char) (rest : List Char)
   refine ⟨?_, resolvePlainRs_str f.res, hsw '"' (by simp), hsw '\'' (by simp)⟩
   cases inFlow <;> simp [plainSafe, valueCtx] at hp ⊢ <;> exact hp
 
+/-! ## the fixed `yaml_quote_key` -/
+
+structure KeyFacts (inFlow : Bool) (s : List Char) : Prop where
+  sw : ∀ x ∈ ['-', '?', '[', '{', '"', '\'', '*', '&', '!', '|', '>', '%', '@', '`', ',', ']', '}', ' '],
+    startsWith s x = false
+  colon : s.contains ':' = false
+  hash : s.contains '#' = false
+  nl : s.contains '\n' = false
+  cr : s.contains '\r' = false
+  tab : s.contains '\t' = false
+  ends : endsWith s ' ' = false
+  merge : s ≠ "<<".toList
+  dots : startsWithDotsSpace s = false
+  flow : inFlow = true → s.any isFlowIndicator = false
+
+theorem keyFacts_of (inFlow : Bool) (s : List Char) (h : needsQuotingKeyV1 inFlow s = false) :
+    KeyFacts inFlow s := by
+  simp only [needsQuotingKeyV1, needsQuotingKeyV0, Bool.or_eq_false_iff] at h
+  constructor
+  · intro x hx
+    simp only [List.mem_cons, List.not_mem_nil, or_false] at hx
+    rcases hx with e | e | e | e | e | e | e | e | e | e | e | e | e | e | e | e | e | e <;> subst e <;> simp only [h]
+  · simp only [h]
+  · simp only [h]
+  · simp only [h]
+  · simp only [h]
+  · simp only [h]
+  · simp only [h]
+  · have := h.1.1.2; simpa using this
+  · simp only [h]
+  · intro hf; have := h.2; simpa [hf] using this
+
+def keyCtx (inFlow top : Bool) : Ctx := if inFlow then .flowKey else .blockKey top
+
+theorem key_plain_of_facts (inFlow top : Bool) (c : Char) (rest : List Char)
+    (f : KeyFacts inFlow (c :: rest)) :
+    plainSafe (keyCtx inFlow top) (c :: rest) = true ∧ c ≠ '"' ∧ c ≠ '\'' := by
+  have hsw : ∀ x ∈ ['-', '?', '[', '{', '"', '\'', '*', '&', '!', '|', '>', '%', '@', '`', ',', ']', '}', ' '],
+      c ≠ x := by
+    intro x hx e
+    have := f.sw x hx
+    simp [startsWith, e] at this
+  have hcl := clean_of_contains f.nl f.cr f.tab
+  have hcol : ':' ∉ c :: rest := not_mem_of_contains_false f.colon
+  have hhash : '#' ∉ c :: rest := not_mem_of_contains_false f.hash
+  have hc1 : c ≠ ':' := fun e => hcol (by simp [e])
+  have hc2 : c ≠ '#' := fun e => hhash (by simp [e])
+  have hind : isIndicator c = true → (c = '-' ∨ c = '?' ∨ c = ':') := by
+    intro hi
+    exfalso
+    simp [isIndicator, hc1, hc2, hsw '-' (by simp), hsw '?' (by simp), hsw '*' (by simp), hsw '&' (by simp),
+      hsw '!' (by simp), hsw '%' (by simp),
+      hsw '@' (by simp), hsw '`' (by simp), hsw '|' (by simp), hsw '>' (by simp), hsw '[' (by simp),
+      hsw '{' (by simp), hsw '"' (by simp), hsw '\'' (by simp), hsw ',' (by simp),
+      hsw ']' (by simp), hsw '}' (by simp)] at hi
+  have hnext : (c = '-' ∨ c = '?' ∨ c = ':') → ∃ n rest', rest = n :: rest' ∧ n ≠ ' ' := by
+    rintro (h | h | h)
+    · exact absurd h (hsw '-' (by simp))
+    · exact absurd h (hsw '?' (by simp))
+    · exact absurd h hc1
+  have hend : (c :: rest).getLast? ≠ some ':' := by
+    intro h
+    obtain ⟨ys, hys⟩ := List.getLast?_eq_some_iff.mp h
+    exact hcol (by rw [hys]; simp)
+  have hlast : (c :: rest).getLast? ≠ some ' ' := by simpa [endsWith] using f.ends
+  have hfl : (keyCtx inFlow top).isFlow = true → ∀ x ∈ rest, isFlowIndicator x = false := by
+    cases inFlow
+    · intro h; simp [keyCtx, Ctx.isFlow] at h
+    · intro _ x hx
+      have := f.flow rfl
+      rw [List.any_eq_false] at this
+      have := this x (by simp [hx])
+      simpa using this
+  have hp := plainOneLine_of (keyCtx inFlow top) c rest hcl (hsw ' ' (by simp)) hind hnext
+    (contains2_false_of_not_mem_left _ hcol) (contains2_false_of_not_mem_right _ hhash) hend hlast hfl
+  refine ⟨?_, hsw '"' (by simp), hsw '\'' (by simp)⟩
+  have hmark : startsWithDocMarker (c :: rest) = false := by
+    match rest, f, hcl with
+    | [], _, _ => simp [startsWithDocMarker]
+    | [_], _, _ => simp [startsWithDocMarker]
+    | [_, _], _, _ => simp [startsWithDocMarker]
+    | b :: c3 :: d :: tl, f, hcl =>
+      have hd : clean d := hcl d (by simp)
+      have hdash : c ≠ '-' := by
+        intro e
+        have := f.sw '-' (by simp)
+        simp [startsWith, e] at this
+      by_cases hdots : c = '.' ∧ b = '.' ∧ c3 = '.'
+      · obtain ⟨e1, e2, e3⟩ := hdots
+        subst e1 e2 e3
+        have hdsp : d ≠ ' ' := by
+          intro e; subst e
+          have := f.dots
+          simp [startsWithDotsSpace] at this
+        simp [startsWithDocMarker, isWhite, isBreak, hd.1, hd.2.1, hd.2.2, hdsp]
+      · simp only [startsWithDocMarker]
+        simp [hdash]
+        intro e1 e2 e3
+        exact absurd ⟨e1, e2, e3⟩ hdots
+  have hpct : (c :: rest).head? ≠ some '%' := by simp [hsw '%' (by simp)]
+  cases inFlow
+  · cases top
+    · simp [plainSafe, keyCtx] at hp ⊢; exact hp
+    · simp [plainSafe, keyCtx, hmark] at hp ⊢; exact ⟨hp, hsw '%' (by simp)⟩
+  · simp [plainSafe, keyCtx] at hp ⊢; exact hp
+
+/-! ## the (fixed) streaming `needs_yaml_quoting` -/
+
+theorem stream_plain_of_not_needs (c : Char) (rest : List Char)
+    (h : needsYamlQuoting .v1 (c :: rest) = false) :
+    plainSafe .blockValue (c :: rest) = true ∧ resolvePlainRs (c :: rest) = .str (c :: rest) ∧
+      c ≠ '"' ∧ c ≠ '\'' := by
+  by_cases h1 : streamFirstIndicator c = true
+  · simp [needsYamlQuoting, h1] at h
+  by_cases h2 : (c = ' ' || (c :: rest).getLast? = some ' ') = true
+  · simp only [needsYamlQuoting, h1] at h; simp [h2] at h
+  by_cases h3 : (resolvePlainRs (c :: rest)).isStr = true
+  · have hany : (c :: rest).any (fun c => c.toNat < 0x20 || c = ':' || c = '#') = false := by
+      simp only [needsYamlQuoting, h1, h2, if_false] at h
+      revert h
+      repeat' split
+      all_goals simp
+    rw [List.any_eq_false] at hany
+    have hi : isIndicator c = false := by simpa [streamFirstIndicator] using h1
+    have hcl : ∀ y ∈ c :: rest, clean y := by
+      intro y hy
+      have := hany y hy
+      simp only [Bool.or_eq_true, decide_eq_true_eq, not_or] at this
+      refine ⟨fun e => ?_, fun e => ?_, fun e => ?_⟩ <;> (subst e; simp at this)
+    have hcol : ':' ∉ c :: rest := fun hm => by have := hany _ hm; simp at this
+    have hhash : '#' ∉ c :: rest := fun hm => by have := hany _ hm; simp at this
+    simp only [Bool.or_eq_true, decide_eq_true_eq, not_or] at h2
+    have hend : (c :: rest).getLast? ≠ some ':' := by
+      intro h
+      obtain ⟨ys, hys⟩ := List.getLast?_eq_some_iff.mp h
+      exact hcol (by rw [hys]; simp)
+    have hp := plainOneLine_of .blockValue c rest hcl h2.1 (fun hh => by rw [hi] at hh; cases hh)
+      (by
+        rintro (e | e | e) <;> (subst e; simp [isIndicator] at hi))
+      (contains2_false_of_not_mem_left _ hcol) (contains2_false_of_not_mem_right _ hhash) hend h2.2
+      (fun hf => by simp [Ctx.isFlow] at hf)
+    refine ⟨by simpa [plainSafe] using hp, resolvePlainRs_str h3, ?_, ?_⟩
+    · intro e; subst e; simp [isIndicator] at hi
+    · intro e; subst e; simp [isIndicator] at hi
+  · exfalso
+    simp only [needsYamlQuoting, h1, h2, if_false] at h
+    revert h
+    repeat' split
+    all_goals simp_all
+
 end SV.Yaml.Emit
